@@ -850,6 +850,13 @@ class Engine(
                         # right, reflecting the fact that the derived engine is
                         # supposed to have final say over how we convert
                         # literals.
+                        if step < 0:
+                            # Replace a descending range with the ascending
+                            # range that has the same members.
+                            if members := container.value:
+                                start, stop_exclusive, step = members[-1], members[0] + 1, -step
+                            else:
+                                start, stop_exclusive, step = 0, 0, 1
                         stop_inclusive = stop_exclusive - 1
                         if start == stop_inclusive:
                             return sql_item == self.convert_column_literal(start)
@@ -860,13 +867,18 @@ class Engine(
                                 self.convert_column_literal(stop_inclusive),
                             )
                             if step != 1:
-                                return sqlalchemy.sql.and_(
-                                    *[
-                                        target,
-                                        sql_item % self.convert_column_literal(step)
-                                        == self.convert_column_literal(start % step),
-                                    ]
-                                )
+                                if start >= 0:
+                                    modulus_term = sql_item % self.convert_column_literal(
+                                        step
+                                    ) == self.convert_column_literal(start % step)
+                                else:
+                                    # SQL's % truncates toward zero, so shift
+                                    # the item to be non-negative inside the
+                                    # BETWEEN window before taking the modulus.
+                                    modulus_term = (
+                                        sql_item - self.convert_column_literal(start)
+                                    ) % self.convert_column_literal(step) == self.convert_column_literal(0)
+                                return sqlalchemy.sql.and_(*[target, modulus_term])
                             else:
                                 return target
                     case ColumnExpressionSequence(items=items):
